@@ -52,6 +52,8 @@ impl<'a> RegExp<'a> {
             && config.is_end_anchor_disabled
             && is_self_check_possible
         {
+            #[cfg(grex_verif)]
+            crate::verif::record("selfcheck", || "on".to_string());
             let mut regex = Self::convert_expr_to_regex(&ast, config);
 
             if config.is_verbose_mode_enabled {
